@@ -358,7 +358,7 @@ Proof. vm_compute. repeat split; reflexivity. Qed.
 
 (* (d) is not vacuous: a metadynamics object with two hills of one variable; cut 8 bytes into the second
    hill record (right after the length word of its "hill" keyword): error; cut between the hills: accepted;
-   a length word of 2^64-1 after a first string (read position 11): not delivered *)
+   a length word of 2^64-1 after a first string (read position 11 = 8 + 3): not delivered *)
 Definition ex_hill (it : N) : list item :=
   [IStr kw_hill; IStr kw_step; IObj (le64 it); IStr kw_weight; IObj (le64 1); IStr kw_centers; IObj (le64 2);
    IStr kw_widths; IObj (le64 3)].
